@@ -41,7 +41,7 @@ CHECKS.update({
         "smallest/largest/random/NTT-prime modulus of 13 (quick) / all 60 (thorough) bit lengths 2..61, (iii) 1..8-word integers with carry patterns; TLC evaluates the exact-integer definition "
         "(r = a*b mod m as a*b = k*m + r /\\ r < m etc.) on every event and lists every event that fails.", ref="DESIGN.md 4/C08", note=ARITH_NOTE),
  "C14": dict(cat="model_checking", tech="trace validation (impl->spec): recorded write-call sequences and sizes of every catalogue object checked by TLC against the wire grammar Layout(shape) of spec/Serialize.tla",
-   text="For 3 (quick) / 9 (thorough) parameter sets with residue widths 1..8 bytes, ~64 objects each (all serializable types, seeded and expanded, sizes 2/3/7, both representations, all three "
+   text="For 3 (quick) / 9 (thorough) parameter sets with residue widths 1..8 bytes (plus 1 / 3 parameter sets of the RNS-plaintext wrapper with 23 wrapper objects each), ~64 objects each (all serializable types, seeded and expanded, sizes 2/3/7, both representations, all three "
         "ciphertext formats with 4 term subsets, containers incl. empty): TLC checks that the sequence of write widths equals the grammar, that announced = returned = written = consumed = Size(shape), "
         "and that same-context, independent-context, two-objects-in-one-stream round trips and follow-up use of the restored object are exact.", ref="DESIGN.md 4/C14",
    note="Trusted: TLC, spec/Serialize.tla, the shape projection and byte-wise equality in harness/src/ser.rs. Values of objects are random; only the enumerated shapes are covered."),
